@@ -99,3 +99,8 @@ CHECKS["C14"] = {
          "side's event stream (14 kinds: duplication, per-event batching, interleaved walks, id-less and vanished-object events, and for id-stable providers reordering, delay, dropped "
          "paths); final trees, deletes and spurious transfers are compared with the unmangled run.",
  "technique": "bounded exhaustive differential exploration; operations, schedule, mangling kind and side are z3 integer choices enumerated by solver-decided branching; the real engine is run with and without an event-mangling provider wrapper"}
+CHECKS["C20"] = {
+ "text": "Exhaustive bounded exploration with solver-enumerated choices (M2) on the real on-demand sync classes: all sequences of 3 (thorough 4) actions from 10 kinds (remote changes, local "
+         "creations/edits, request by path/id, un-request, merged listing) with a schedule slot after each, with and without an auto-sync predicate; 'never downloaded unless requested' is "
+         "checked after every engine step and API call, un-request/listing contracts at the call, mirror/upload/in-sync conditions at quiescence.",
+ "technique": "bounded exhaustive exploration; action sequences and schedule slots are z3 integer choices enumerated by solver-decided branching over the real SmartCloudSync engine; per-step and final oracles"}
